@@ -104,7 +104,7 @@ def run_config(ctx, rep, cfg, F):
             for p in C.complete(paths):
                 r = repr(p.result[1])
                 wrote = {e["field"] for e in p.ev("field_write")} | {"table" for e in p.ev("vec_clone") if e["what"] == "nodes"} | \
-                    {"free" for e in p.ev("vec_clone") if e["src"].endswith(".free")}
+                    {"free" for e in p.ev("vec_clone") if e["src"].endswith(".free") and e["dst"].endswith(".free")}
                 if it_["name"] == "clone_from":
                     missing = {"table", "free", "count"} - wrote
                     if missing:
